@@ -141,6 +141,29 @@ def c01_candidates(P, uni, sibling_labels=('e', 'a', 'b', 'c')):
         _blk(P, [mk_tx([(o_ref, K[0]), (oref(o1[0]), K[2])], [(v + v1 - 7, K[2])])], 'second-input-signed-by-wrong-key', out)
         _blk(P, [mk_tx([(o_ref, K[2]), (oref(o1[0]), K[1])], [(v + v1 - 7, K[2])])], 'first-input-signed-by-wrong-key', out)
         _blk(P, [mk_tx([(o_ref, K[0]), (oref(o1[0]), K[0])], [(v + v1 - 7, K[2])])], 'second-input-signed-by-first-inputs-key', out)
+    # ---- two unspent outputs of ONE funding transaction held by different keys, spent together: each order, all signed
+    #      by one of the two owners (a payer taking a payment back together with its own change)
+    by_tx = {}
+    for r, x in sorted(U.items()):
+        if x[1] in KEY_BY_PUB and x[0] > 20:
+            by_tx.setdefault(r[0], []).append(r)
+    done = 0
+    for t, refs in sorted(by_tx.items()):
+        pairs = [(ra, rb) for ra in refs for rb in refs if ra < rb and U[ra][1] != U[rb][1]]
+        for ra, rb in pairs[:2]:
+            ka, kb = KEY_BY_PUB[U[ra][1]], KEY_BY_PUB[U[rb][1]]
+            tot = U[ra][0] + U[rb][0] - 9
+            tag = '' if not done else '-%d' % done
+            _blk(P, [mk_tx([(oref(ra), ka), (oref(rb), kb)], [(tot, K[2])])], 'ok-sibling-outputs-2keys' + tag, out, control=True)
+            _blk(P, [mk_tx([(oref(ra), kb), (oref(rb), kb)], [(tot, K[2])])], 'sibling-outputs-both-signed-by-second-owner' + tag, out)
+            _blk(P, [mk_tx([(oref(ra), ka), (oref(rb), ka)], [(tot, K[2])])], 'sibling-outputs-both-signed-by-first-owner' + tag, out)
+            _blk(P, [mk_tx([(oref(rb), ka), (oref(ra), ka)], [(tot, K[2])])], 'sibling-outputs-reversed-both-signed-by-first-owner' + tag, out)
+            _blk(P, [mk_tx([(oref(rb), kb), (oref(ra), kb)], [(tot, K[2])])], 'sibling-outputs-reversed-both-signed-by-second-owner' + tag, out)
+            done += 1
+            if done >= 2:
+                break
+        if done >= 2:
+            break
     # ---- signatures
     _blk(P, [mk_tx([(o_ref, K[1])], [(COIN, K[1]), (v - COIN - 1000 % (v // 10), K[0])])], 'signed-by-other-wallet-key', out)
     _blk(P, [mk_tx([(o_ref, K[2])], [(COIN, K[1]), (v - COIN - 1000 % (v // 10), K[0])])], 'signed-by-foreign-key', out)
